@@ -21,7 +21,7 @@ FORMULAS = [
 ORDERINGS = [None, "a", "b a", "x a", "c b a", "a a b", "z a b", ", ; a", "", "\"c\" a"]
 OPTSETS = [
     [], ["-t"], ["-v"], ["-m", "-t"], ["-t", "-f", "true"], ["-t", "-f", "false"], ["-t", "-f", "any"], ["-t", "-c", "true"],
-    ["-t", "-c", "false"], ["-t", "-b", "2"], ["-r"], ["-p", "@PT@"], ["-d", "@DOT@"], ["-d", "@DOT@", "-f", "true"],
+    ["-t", "-c", "false"], ["-t", "-b", "2"], ["-t", "-b", "1"], ["-b", "3"], ["-b", "0"], ["-b", "1", "-v"], ["-r"], ["-p", "@PT@"], ["-d", "@DOT@"], ["-d", "@DOT@", "-f", "true"],
     ["-d", "@DOT@", "-f", "false"], ["-m", "-v", "-t", "-p", "@PT@", "-d", "@DOT@"], ["-t", "-v", "-f", "T", "-c", "F"],
 ]
 
@@ -188,13 +188,27 @@ def sweep_order(repo, budget, seed, binary=None):
             return None, 0, err
     checked = 0
     with tempfile.TemporaryDirectory(prefix="cliorder", dir=WORK) as tmp:
+        from . import replay as R
+        rbin, rerr = R.build_replay()
         for f in ORDER_FORMULAS:
-            base = _run(binary, ["-t", "--evaluate=" + f], tmp)
-            if base is None or base[0] != 0:
-                continue
-            tb = _table(base[1])
+            tb = None
+            if rbin is not None:
+                # the reference meaning (independent evaluator), so that a defect shared by both runs of the binary is still seen
+                try:
+                    rj = json.loads(subprocess.run([rbin, "ref", "formula", f], capture_output=True, text=True, timeout=60).stdout.strip().split("\n")[-1])
+                    if rj.get("ok"):
+                        vars_, free, tt = rj["vars"], rj["free"], rj["tt"]
+                        allasg = [frozenset(n for n, b in zip(free, bits) if b) for bits in itertools.product([False, True], repeat=len(free))]
+                        tb = (free, set(a for a in allasg if tt[sum((1 << i) for i, n in enumerate(vars_) if n in a)] == "1"))
+                except Exception:
+                    tb = None
             if tb is None:
-                continue
+                base = _run(binary, ["-t", "--evaluate=" + f], tmp)
+                if base is None or base[0] != 0:
+                    continue
+                tb = _table(base[1])
+                if tb is None:
+                    continue
             for od in ORDER_FILES:
                 checked += 1
                 case = json.dumps({"formula": f, "ordering": od, "options": ["-t"], "channel": "order-roundtrip"})
@@ -237,35 +251,58 @@ MODEL_FORMULAS = ORDER_FORMULAS + ["false", "true", "a & -a", "[a, b] > 2", "[a,
 
 
 def sweep_model(repo, budget, seed, binary=None):
+    """`rsbdd -m -t [-f true]` against the reference evaluator: exactly one satisfying row for a satisfiable formula (none for
+    an unsatisfiable one), over the free variables, and every assignment the row covers satisfies the formula"""
     import json
+    from . import replay as R
+    global MODEL_FORMULAS
+    if len(MODEL_FORMULAS) > 1:
+        MODEL_FORMULAS = list(dict.fromkeys(MODEL_FORMULAS + TABLE_FORMULAS + ["(exists x # (x & a)) & (b | c)", "a | -a", "(a => b) | (b => a)", "[a, b] >= 0",
+                                                               "forall a # exists b # (a ^ b)", "(mu X # (X | x)) & (a | b)"]))
     if binary is None:
         binary, err = build_binary(repo)
         if binary is None:
             return None, 0, err
+    rbin, err = R.build_replay()
+    if rbin is None:
+        return None, 0, err
     checked = 0
     with tempfile.TemporaryDirectory(prefix="climodel", dir=WORK) as tmp:
         for f in MODEL_FORMULAS:
+            ref = subprocess.run([rbin, "ref", "formula", f], capture_output=True, text=True, timeout=60)
+            try:
+                rj = json.loads(ref.stdout.strip().split("\n")[-1])
+            except Exception:
+                continue
+            if not rj.get("ok"):
+                continue
+            vars_, free, tt = rj["vars"], rj["free"], rj["tt"]
+            allasg = [frozenset(n for n, b in zip(free, bits) if b) for bits in itertools.product([False, True], repeat=len(free))]
+            sat = set(a for a in allasg if tt[sum((1 << i) for i, n in enumerate(vars_) if n in a)] == "1")
             for filt in ([], ["-f", "true"]):
                 checked += 1
                 case = json.dumps({"formula": f, "ordering": None, "options": ["-m", "-t"] + filt, "channel": "model"})
-                base = _run(binary, ["-t", "--evaluate=" + f], tmp)
                 mod = _run(binary, ["-m", "-t"] + filt + ["--evaluate=" + f], tmp)
-                if base is None or mod is None or base[0] != 0:
+                if mod is None:
                     continue
                 if mod[0] == 101 or "panicked at" in mod[2]:
                     return {"mode": "climodel", "case": case, "expected": "a table", "actual": "panic: " + mod[2][:300]}, checked, ""
-                tb, tm = _table(base[1]), _table(mod[1])
-                if tb is None or tm is None:
-                    continue
-                rows_true = [l for l in mod[1].split("\n")[2:] if l.startswith("|") and l.rstrip().endswith("True  |")]
-                if len(tb[1]) == 0:
-                    if rows_true:
+                pr = _rows(mod[1])
+                if mod[0] != 0 or pr is None:
+                    return {"mode": "climodel", "case": case, "expected": "a truth table", "actual": f"exit {mod[0]}: {mod[1][:200]} {mod[2][-200:]}"}, checked, ""
+                names, rows = pr
+                if sorted(names) != sorted(free):
+                    return {"mode": "climodel", "case": case, "expected": f"columns = the free variables {free}", "actual": f"{names}"}, checked, ""
+                true_rows = [r for r in rows if r[-1] == "True"]
+                if not sat:
+                    if true_rows:
                         return {"mode": "climodel", "case": case, "expected": "no satisfying row for an unsatisfiable formula", "actual": mod[1][:300]}, checked, ""
                     continue
-                if len(rows_true) != 1:
+                if len(true_rows) != 1:
                     return {"mode": "climodel", "case": case, "expected": "exactly one satisfying row", "actual": mod[1][:400]}, checked, ""
-                if not tm[1] <= tb[1]:
-                    return {"mode": "climodel", "case": case, "expected": "the model row satisfies the formula", "actual": mod[1][:400]}, checked, ""
+                covered = set(_expand(names, true_rows[0][:-1]))
+                if not covered <= sat:
+                    return {"mode": "climodel", "case": case, "expected": "every assignment the model row covers satisfies the formula", "actual": mod[1][:400]}, checked, ""
     return None, checked, ""
 
 
@@ -279,4 +316,135 @@ def model_case(repo, case):
         r, n, err = sweep_model(repo, 0, 0)
     finally:
         MODEL_FORMULAS = sf
+    return r, err
+
+
+# ------------------------------------------------------------------ the printed answer vs an independent evaluation (main() glue + printers)
+
+TABLE_FORMULAS = ORDER_FORMULAS + [
+    "false", "true", "a & -a", "a | -a", "[a, b] > 2", "[a, b, c] >= 2", "exists a # a", "-a & -b", "(a & b) | (c & d)",
+    "exists x # (x & a) | b", "(exists x # (x & a)) & (b | c)", "(gfp X # X & a) & X", "X & (gfp X # X & a)", "a & (exists b # b | -a)",
+    "(a | -b) & c", "(a & -b) | c", "(forall q # q | p) & -r", "exists x # (x & (y | z))", "nu X # ((mu X # (X | a)) & X)",
+    "exists x # ((forall x # (x | a)) & x)", "[a, b] < 0", "[a] <= 18446744073709551615", "a <= b <= c", "if b then a & c else c",
+]
+
+
+def _rows(stdout):
+    rows = [l for l in stdout.split("\n") if l.startswith("|")]
+    if len(rows) < 2:
+        return None
+    hdr = [c.strip() for c in rows[0].strip("|").split("|")]
+    out = []
+    for l in rows[2:]:
+        cells = [c.strip() for c in l.strip("|").split("|")]
+        if len(cells) != len(hdr):
+            return None
+        out.append(cells)
+    return hdr[:-1], out
+
+
+def _expand(names, cells):
+    free = [i for i, c in enumerate(cells) if c == "Any"]
+    for bits in itertools.product([False, True], repeat=len(free)):
+        asg = set(n for n, c in zip(names, cells) if c == "True")
+        asg |= set(names[i] for i, bv in zip(free, bits) if bv)
+        yield frozenset(asg)
+
+
+def sweep_table(repo, budget, seed, binary=None):
+    """`rsbdd -t [-f F]` and `-v` against the reference evaluator of the replay crate: header = the free variables; rows are
+    disjoint, their result column is right on every assignment they cover, and they cover all / the satisfying / the
+    falsifying assignments for filter any / true / false; -v lists exactly the satisfying assignments over free names."""
+    import json
+    from . import replay as R
+    if binary is None:
+        binary, err = build_binary(repo)
+        if binary is None:
+            return None, 0, err
+    rbin, err = R.build_replay()
+    if rbin is None:
+        return None, 0, err
+    checked = 0
+    with tempfile.TemporaryDirectory(prefix="clitable", dir=WORK) as tmp:
+        for f in TABLE_FORMULAS:
+            ref = subprocess.run([rbin, "ref", "formula", f], capture_output=True, text=True, timeout=60)
+            try:
+                rj = json.loads(ref.stdout.strip().split("\n")[-1])
+            except Exception:
+                continue
+            if not rj.get("ok"):
+                continue
+            vars_, free, tt = rj["vars"], rj["free"], rj["tt"]
+            allasg = [frozenset(n for n, b in zip(free, bits) if b) for bits in itertools.product([False, True], repeat=len(free))]
+
+            def value(asg):
+                row = sum((1 << i) for i, n in enumerate(vars_) if n in asg)
+                return tt[row] == "1"
+            sat = set(a for a in allasg if value(a))
+            for filt in (None, "true", "false", "any"):
+                checked += 1
+                opts = ["-t"] + (["-f", filt] if filt else [])
+                case = json.dumps({"formula": f, "ordering": None, "options": opts, "channel": "table"})
+                r = _run(binary, opts + ["--evaluate=" + f], tmp)
+                if r is None:
+                    continue
+                if r[0] == 101 or "panicked at" in r[2]:
+                    return {"mode": "clitable", "case": case, "expected": "a table", "actual": "panic: " + r[2][:300]}, checked, ""
+                pr = _rows(r[1])
+                if r[0] != 0 or pr is None:
+                    return {"mode": "clitable", "case": case, "expected": "a table", "actual": f"exit {r[0]} {r[2][:200]}"}, checked, ""
+                names, rows = pr
+                if sorted(names) != sorted(free) or len(set(names)) != len(names):
+                    return {"mode": "clitable", "case": case, "expected": f"columns = the free variables {free}", "actual": f"{names}"}, checked, ""
+                covered = {}
+                for cells in rows:
+                    want_res = cells[-1]
+                    for a in _expand(names, cells[:-1]):
+                        if a in covered:
+                            return {"mode": "clitable", "case": case, "expected": "pairwise disjoint rows", "actual": r[1][:400]}, checked, ""
+                        covered[a] = want_res
+                        if (want_res == "True") != (a in sat):
+                            return {"mode": "clitable", "case": case, "expected": f"result column right on every covered assignment (e.g. {sorted(a)} is {'true' if a in sat else 'false'})", "actual": r[1][:400]}, checked, ""
+                expect_cov = set(allasg) if filt in (None, "any") else (sat if filt == "true" else set(allasg) - sat)
+                if set(covered) != expect_cov:
+                    return {"mode": "clitable", "case": case, "expected": f"rows cover exactly {len(expect_cov)} assignments for filter {filt or 'any'}", "actual": f"{len(covered)} covered\n" + r[1][:400]}, checked, ""
+            # -v: the satisfying assignments by name
+            checked += 1
+            case = json.dumps({"formula": f, "ordering": None, "options": ["-v"], "channel": "table"})
+            r = _run(binary, ["-v", "--evaluate=" + f], tmp)
+            if r is None:
+                continue
+            if r[0] == 101 or "panicked at" in r[2]:
+                return {"mode": "clitable", "case": case, "expected": "-v output", "actual": "panic: " + r[2][:300]}, checked, ""
+            got = set()
+            bad = None
+            for line in r[1].split("\n"):
+                line = line.strip()
+                if not line.endswith(";"):
+                    continue
+                items = [x.strip() for x in line[:-1].split(",") if x.strip()]
+                true_names = [x for x in items if not x.endswith("*")]
+                any_names = [x[:-1] for x in items if x.endswith("*")]
+                for n in true_names + any_names:
+                    if n not in free:
+                        bad = f"`{n}` is not a free variable (line `{line}`)"
+                for bits in itertools.product([False, True], repeat=len(any_names)):
+                    got.add(frozenset(true_names) | frozenset(n for n, b in zip(any_names, bits) if b))
+            if bad:
+                return {"mode": "clitable", "case": case, "expected": f"only free variables {free} in the answer", "actual": bad}, checked, ""
+            if got != sat:
+                return {"mode": "clitable", "case": case, "expected": f"-v lists exactly the {len(sat)} satisfying assignments", "actual": r[1][:400]}, checked, ""
+    return None, checked, ""
+
+
+def table_case(repo, case):
+    import json
+    c = json.loads(case)
+    global TABLE_FORMULAS
+    sf = TABLE_FORMULAS
+    try:
+        TABLE_FORMULAS = [c["formula"]]
+        r, n, err = sweep_table(repo, 0, 0)
+    finally:
+        TABLE_FORMULAS = sf
     return r, err
